@@ -13,7 +13,7 @@ class SubjectGroupsIqProtocolEntity(GroupsIqProtocolEntity):
         self.setProps(subject)
 
     def setProps(self, subject):
-        self.subject = subject
+        self.subject = subject if type(subject) is bytes else subject.encode()
 
     def toProtocolTreeNode(self):
         node = super(SubjectGroupsIqProtocolEntity, self).toProtocolTreeNode()
